@@ -55,6 +55,7 @@ func checkC19(c *Ctx) {
 
 	c19TextWriter(c)
 	c19IteratorMarks(c)
+	c19ScopeMarks(c)
 	c.NotCovered("leaks through go-cty conversion error texts and through application-supplied function errors (trusted / out of scope by the property's last sentence)")
 	c.NotCovered("boolean facts and lengths revealed by a message (\"value is null\", \"tuple with 3 elements\") are not string or number content")
 	c.Trust("error values and err.Error() are clean: go-cty v1.16.3 conversion errors name types and target attribute names, never values (two marginal exceptions: the 'use lowercase \"true\"' hint and MismatchMessage source attribute names)")
@@ -171,6 +172,57 @@ func c19IteratorMarks(c *Ctx) {
 		}
 	}
 	c.Floor("iter.marks arguments", n, 2, "key and value of the known for_each iteration")
+}
+
+// R4 scope.marks: an element of a collection whose marks were stripped is bound in an evaluation
+// scope only with those marks re-applied. Diagnostics carry the scope they were produced in
+// (Diagnostic.EvalContext), and the text writer prints the values of the variables an erroneous
+// expression refers to unless they are marked.
+func c19ScopeMarks(c *Ctx) {
+	c.Rule("R4 scope.marks: every value stored into an EvalContext.Variables map in hcl, hclsyntax, hcldec, ext/dynblock that is an element of a collection whose marks were stripped by Unmark() has those marks re-applied (WithMarks / WithSameMarks): diagnostics of sub-expressions carry that scope (Diagnostic.EvalContext) and the diagnostic text writer prints every unmarked variable the failing expression refers to")
+	n := 0
+	for _, fn := range c.P.pkgFuncs("hcl", "hclsyntax", "hcldec", "ext/dynblock") {
+		// maps that are (or become) the Variables of an EvalContext
+		isVars := func(m ssa.Value) bool {
+			if u, ok := m.(*ssa.UnOp); ok && u.Op == token.MUL {
+				if fa, ok := u.X.(*ssa.FieldAddr); ok {
+					if fv := fieldVarOf(fa.X.Type(), fa.Field); fv != nil && fv.Name() == "Variables" {
+						if nt := namedOf(fa.X.Type()); nt != nil && nt.Obj().Name() == "EvalContext" {
+							return true
+						}
+					}
+				}
+			}
+			if mm, ok := m.(*ssa.MakeMap); ok {
+				for _, r := range *mm.Referrers() {
+					if st, ok := r.(*ssa.Store); ok && st.Val == ssa.Value(mm) {
+						if fa, ok := st.Addr.(*ssa.FieldAddr); ok {
+							if fv := fieldVarOf(fa.X.Type(), fa.Field); fv != nil && fv.Name() == "Variables" {
+								return true
+							}
+						}
+					}
+				}
+			}
+			return false
+		}
+		for _, b := range fn.Blocks {
+			for _, ins := range b.Instrs {
+				mu, ok := ins.(*ssa.MapUpdate)
+				if !ok || !isCtyValue(mu.Value.Type()) || !isVars(mu.Map) {
+					continue
+				}
+				n++
+				c.Sites++
+				c.Fn(FuncName(fn))
+				stripped, remarked := strippedElementOf(mu.Value)
+				key := fmt.Sprintf("%s:bind[%s]<-%s", FuncName(fn), pathName(mu.Key), pathName(mu.Value))
+				c.Check(stripped == nil || remarked, "scope.marks", key, mu.Pos(), "not an element of a stripped collection, or re-marked",
+					"an element of a collection whose marks were stripped by Unmark() is bound in a child scope without them: a diagnostic of a sub-expression evaluated in that scope carries the scope, and the text writer prints the variable's content (`with v as \"…\"`)")
+			}
+		}
+	}
+	c.Floor("scope.marks bindings", n, 4, "for-expression iterator bindings and dynamic-block iterators")
 }
 
 // strippedElementOf: if v is (derived from) an element of the result of Unmark(), returns that
